@@ -546,6 +546,13 @@ RCP<const Set> solve(const RCP<const Basic> &f, const RCP<const Symbol> &sym,
     }
 
     if (is_a<Mul>(*f)) {
+        // a factor with the symbol in its denominator contributes poles,
+        // not solutions
+        RCP<const Basic> num, den;
+        as_numer_denom(f, outArg(num), outArg(den));
+        if (has_symbol(*den, *sym)) {
+            return solve_rational(f, sym, domain);
+        }
         auto args = f->get_args();
         set_set solns;
         for (auto &a : args) {
